@@ -298,7 +298,13 @@ def gen_design(rng, opts=None):
                 if not any(c0[0] == p for c0 in inst["conns"]):
                     inst["conns"].append([p, c])
             for bp, bdef in inst["_bports"].items():
-                if "array" in inst:
+                if rng.random() < 0.12 and opts.get("noconns", True) and opts.get("bundle_noconns", True):
+                    # a no-connect on a bundle-valued port (of an instance, or of every element of an array): every leaf on a net of its own
+                    c = {"k": "noconn"}
+                    if rng.random() < 0.4:
+                        c["name"] = g.fresh("nc")
+                    inst["conns"].append([bp, c])
+                elif "array" in inst:
                     inst["conns"].append([bp, {"k": "bundle", "n": g.bundle_inst(bdef)}])
                 else:
                     inst["conns"].append([bp, g.bundle_conn(bdef, this=(inst["n"], bp))])
